@@ -6,6 +6,7 @@ import (
 	"fmt"
 	"hash/fnv"
 	"math"
+	"runtime"
 	"runtime/debug"
 	"sort"
 	"strings"
@@ -49,8 +50,8 @@ type Req struct {
 	Cv    int    `json:"cv"`    // client verifier (SETCLIENTID)
 	Ok    string `json:"ok"`    // open-owner key
 	Lk    string `json:"lk"`    // lock-owner key
-	Seq   int    `json:"seq"`   // open-owner seqid (or LOCKU/LOCK lock-owner seqid: see Lseq)
-	Lseq  int    `json:"lseq"`  // lock-owner seqid
+	Seq   int    `json:"seq"`   // open-owner seqid; negative = 2^32 + seq (-1 = 2^32-1: the value before the wrap to 1)
+	Lseq  int    `json:"lseq"`  // lock-owner seqid (same encoding)
 	Sk    string `json:"sk"`    // state id kind: none, reg, anon, byp, anonbad, bypbad, stale
 	St    int    `json:"st"`    // state id token
 	Sq    int    `json:"sq"`    // state id seqid
@@ -61,9 +62,9 @@ type Req struct {
 	Name  string `json:"name"`
 	Name2 string `json:"name2"`
 	Lt    string `json:"lt"`   // R, W, RW (READW), WW (WRITEW), BAD
-	S     int    `json:"s"`    // start position
-	E     int    `json:"e"`    // end position (exclusive); nPos = maximum offset
-	Lenk  string `json:"lenk"` // norm, zero, eof, ovf
+	S     int    `json:"s"`    // start position; nPos = offset 2^64-1 (the last byte)
+	E     int    `json:"e"`    // end position (exclusive); nPos = offset 2^64-1
+	Lenk  string `json:"lenk"` // norm, zero, eof (length all ones), ovf, one (length 1)
 	NewLo bool   `json:"newlo"`
 	Gate  bool   `json:"gate"` // hold the operation inside the leaf (I/O in flight)
 }
@@ -75,7 +76,7 @@ func blankReq(op string) Req {
 // Den is the conflicting lock reported by a denied LOCK/LOCKT.
 type Den struct {
 	S   int    `json:"s"`
-	E   int    `json:"e"`
+	E   int    `json:"e"` // exclusive; nPos+1 = reported as "through end of file"
 	Lt  string `json:"lt"`
 	Cid int    `json:"cid"`
 	Lk  string `json:"lk"`
@@ -108,7 +109,8 @@ type env struct {
 	alloc   *instrAllocator
 	root    virtual.PrepopulatedDirectory
 	nextIO  int
-	pending map[int]*pendingOp
+	pending map[int]*pendingOp // in flight: held at a gate
+	parked  map[int]*pendingOp // waiting for the in-flight OPEN of their open-owner
 
 	cidTok    map[uint64]int
 	verfTok   map[[8]byte]int
@@ -144,6 +146,7 @@ func newEnv(tr *common.Trace, trace int, seed int64) *env {
 		tr:        tr,
 		clk:       &fakeClock{},
 		pending:   map[int]*pendingOp{},
+		parked:    map[int]*pendingOp{},
 		cidTok:    map[uint64]int{},
 		verfTok:   map[[8]byte]int{},
 		confByTok: map[int]confVals{},
@@ -292,6 +295,8 @@ func offsetLength(r *Req) (uint64, uint64) {
 	case "ovf":
 		// offset + length exceeds 2^64-1, length not all ones.
 		return off, math.MaxUint64 - 1
+	case "one":
+		return off, 1
 	}
 	return off, pos(r.E) - off
 }
@@ -482,7 +487,7 @@ func resStatus(res nfsv4.NfsResop4) nfsv4.Nfsstat4 {
 func (e *env) denied(d *nfsv4.Lock4denied) Den {
 	out := Den{S: unpos(d.Offset), E: -1, Lt: "?", Cid: -1, Lk: string(d.Owner.Owner)}
 	if d.Length == math.MaxUint64 {
-		out.E = nPos
+		out.E = nPos + 1
 	} else {
 		out.E = unpos(d.Offset + d.Length)
 	}
@@ -595,8 +600,10 @@ func (e *env) reduce(r *Req, npre int, createdBefore int, res *nfsv4.Compound4re
 }
 
 // start runs a request in its own goroutine. It returns when the
-// request has completed or is held at its gate.
-func (e *env) start(r Req) (p *pendingOp, res *opResult) {
+// request has completed (res != nil), is held at its gate ("gate") or,
+// while an OPEN is in flight, waits for that OPEN's open-owner
+// transaction ("parked").
+func (e *env) start(r Req) (p *pendingOp, res *opResult, state string) {
 	ops, npre := e.build(&r)
 	p = &pendingOp{req: r, npre: npre, done: make(chan opResult, 1)}
 	ctx := context.Background()
@@ -624,16 +631,67 @@ func (e *env) start(r Req) (p *pendingOp, res *opResult) {
 		}
 		out.res = res
 	}()
-	if p.g == nil {
-		o := <-p.done
-		return p, &o
+	var arrived chan struct{}
+	if p.g != nil {
+		arrived = p.g.arrived
 	}
-	select {
-	case o := <-p.done:
-		return p, &o
-	case <-p.g.arrived:
-		return p, nil
+	if e.openInFlight() == 0 {
+		// Nothing the request could have to wait for.
+		select {
+		case o := <-p.done:
+			return p, &o, "done"
+		case <-arrived:
+			return p, nil, "gate"
+		}
 	}
+	deadline := time.Now().Add(120 * time.Second)
+	for {
+		select {
+		case o := <-p.done:
+			return p, &o, "done"
+		case <-arrived:
+			return p, nil, "gate"
+		default:
+		}
+		if parkedGoroutines() == leakedParked+len(e.parked)+1 {
+			return p, nil, "parked"
+		}
+		if time.Now().After(deadline) {
+			panic("request neither completed nor parked: " + fmt.Sprintf("%+v", r))
+		}
+		time.Sleep(200 * time.Microsecond)
+	}
+}
+
+// openInFlight returns the number of OPEN requests held at their gate.
+func (e *env) openInFlight() int {
+	n := 0
+	for _, p := range e.pending {
+		if p.req.Op == "OPEN" {
+			n++
+		}
+	}
+	return n
+}
+
+// leakedParked counts goroutines of earlier histories that never woke up
+// (only with a defective server).
+var leakedParked int
+
+// parkedGoroutines counts the goroutines that wait, durably, for the
+// completion of an open-owner transaction (channel receive inside
+// waitForCurrentTransactionCompletion).
+func parkedGoroutines() int {
+	buf := make([]byte, 4<<20)
+	buf = buf[:runtime.Stack(buf, true)]
+	n := 0
+	for _, g := range strings.Split(string(buf), "\n\n") {
+		head, _, _ := strings.Cut(g, "\n")
+		if strings.HasPrefix(head, "goroutine ") && strings.Contains(head, "[chan receive") && strings.Contains(g, "waitForCurrentTransactionCompletion") {
+			n++
+		}
+	}
+	return n
 }
 
 // ---------------------------------------------------------------------------
@@ -675,7 +733,7 @@ func (e *env) hook() map[string]any {
 	oos := []map[string]any{}
 	for _, o := range snap.OpenOwners {
 		oos = append(oos, map[string]any{
-			"cid": tokOf(o.ShortClientID), "ok": o.Key, "confirmed": o.Confirmed, "lastseq": int(o.LastSeqID),
+			"cid": tokOf(o.ShortClientID), "ok": o.Key, "confirmed": o.Confirmed, "lastseq": int(int32(o.LastSeqID)),
 			"hasresp": o.HasLastResponse, "closedresp": o.LastResponseClosedFile, "files": o.Files,
 			"unused": o.Unused, "intxn": o.InTransaction,
 		})
@@ -694,7 +752,7 @@ func (e *env) hook() map[string]any {
 	los := []map[string]any{}
 	for _, l := range snap.LockOwners {
 		los = append(los, map[string]any{
-			"cid": tokOf(l.ShortClientID), "lk": l.Key, "lastseq": int(l.LastSeqID), "hasresp": l.HasLastResponse, "files": l.Files,
+			"cid": tokOf(l.ShortClientID), "lk": l.Key, "lastseq": int(int32(l.LastSeqID)), "hasresp": l.HasLastResponse, "files": l.Files,
 		})
 	}
 	sort.Slice(los, func(i, j int) bool {
@@ -752,14 +810,24 @@ func (e *env) do(r Req) (Rep, int) {
 	if e.dead {
 		return Rep{Pre: "DEAD", St: "DEAD"}, 0
 	}
+	if r.Gate && r.Op == "OPEN" && e.openInFlight() > 0 {
+		r.Gate = false // one OPEN in flight at a time
+	}
 	created := e.alloc.created()
-	p, res := e.start(r)
-	if res == nil {
+	p, res, state := e.start(r)
+	if state == "gate" {
 		e.nextIO++
 		p.id = e.nextIO
 		e.pending[p.id] = p
 		e.observe(common.Ev{"ev": "iostart", "id": p.id, "req": r})
 		return Rep{Pre: "OK", St: "INFLIGHT"}, p.id
+	}
+	if state == "parked" {
+		e.nextIO++
+		p.id = e.nextIO
+		e.parked[p.id] = p
+		e.observe(common.Ev{"ev": "blocked", "id": p.id, "req": r})
+		return Rep{Pre: "OK", St: "PARKED"}, p.id
 	}
 	if res.panicMsg != "" {
 		e.dead = true
@@ -788,7 +856,70 @@ func (e *env) finish(id int) Rep {
 	}
 	rep := e.reduce(&p.req, p.npre, created, o.res)
 	e.observe(common.Ev{"ev": "ioend", "id": id, "req": p.req, "rep": rep})
+	if p.req.Op == "OPEN" {
+		e.drain()
+	}
 	return rep
+}
+
+// drain collects the requests that waited for the OPEN that has just
+// completed: each must complete now; it is logged like a request sent at
+// this moment. One that is still parked on the (closed or forgotten)
+// channel of the completed transaction never will: that is logged.
+func (e *env) drain() {
+	ids := []int{}
+	for id := range e.parked {
+		ids = append(ids, id)
+	}
+	sort.Ints(ids)
+	for _, id := range ids {
+		p := e.parked[id]
+		delete(e.parked, id)
+		if e.dead {
+			continue
+		}
+		created := e.alloc.created()
+		var o opResult
+		got := false
+		still := 0
+		deadline := time.Now().Add(120 * time.Second)
+		for !got {
+			select {
+			case o = <-p.done:
+				got = true
+				continue
+			default:
+			}
+			// Parked although the transaction it waited for is over
+			// (seen on several consecutive looks, so that a goroutine
+			// that is just being woken is not mistaken for one).
+			if parkedGoroutines() >= leakedParked+len(e.parked)+1 {
+				still++
+			} else {
+				still = 0
+			}
+			if still >= 50 {
+				break
+			}
+			if time.Now().After(deadline) {
+				panic("parked request neither completed nor parked")
+			}
+			time.Sleep(2 * time.Millisecond)
+		}
+		if !got {
+			leakedParked++
+			e.dead = true
+			e.tr.Emit(common.Ev{"ev": "hang", "id": id, "req": p.req})
+			continue
+		}
+		if o.panicMsg != "" {
+			e.dead = true
+			e.tr.Emit(common.Ev{"ev": "panic", "msg": o.panicMsg, "pk": panicKind(o.panicMsg), "stack": o.stack, "req": p.req, "leaf": e.alloc.snapshot()})
+			continue
+		}
+		rep := e.reduce(&p.req, p.npre, created, o.res)
+		e.observe(common.Ev{"ev": "op", "req": p.req, "rep": rep})
+	}
 }
 
 func (e *env) tick(d int) {
